@@ -1,17 +1,18 @@
 """C06 - sigma stays positive, grows by at most tau per game, and limit_sigma caps it.
 
-Chain of obligations (R-mode):
-  link        the real _compute equals the published update for the shape (field)
-  delta>=0    the variance step share*Delta of every player is >= 0 in that update
-              (structural sign prover over the spec's sums; w, wt >= 0 and gamma >= 0
-              come from their contracts)
+Obligations (R-mode), all on the result terms of the real code:
+  _compute/sigma-in-(0,prior]   per shape and tie pattern: the exact normal form of the returned
+              sigma is sigma_in * sqrt(Y) with Y = max(a, b), a <= 1, b <= 1 and a > 0 or b > 0
+              (1 - a is the variance step share*Delta: term-wise non-negative after raising to
+              common denominators, with w, wt in [0,1] and gamma >= 0 from their contracts)
+  rate/tau-bound, rate/limit    the same on the real rate() for symbolic rank values and per-call
+              tau, every weak order a path: sigma_out = sqrt(sigma^2+tau^2) * sqrt(Y); with the
+              clamp on, sigma_out is the prior itself or satisfies the path condition sigma_out <= prior
   lemmas      shape-independent, over fresh reals, by z3:
-              sigma-step     sigma>0, 0<kappa<=1, X>=0, r=sqrt(max(1-X,kappa)) => 0 < sigma*r <= sigma
-              inflate        s=sqrt(sigma^2+tau^2) => sigma <= s  (so the clamp target is below the tau bound)
+              sigma-step     sigma>0, 0<Y<=1, r=sqrt(Y) => 0 < sigma*r <= sigma
+              inflate        s=sqrt(sigma^2+tau^2) => sigma <= s
               clamp          min(a,b) <= a and <= b
               history-step   x <= sqrt(a^2+t^2), x >= 0 => x^2 <= a^2 + t^2
-  rate link   the real rate equals rate_spec (tau inflation, update, clamp) for symbolic
-              rank vectors and per-call tau (field; every weak order of the small shapes)
 """
 from __future__ import annotations
 
@@ -19,9 +20,9 @@ import time
 
 import z3
 
-from .. import driver, extract, signs
+from .. import driver, extract
 from ..symrt import term, active
-from .computil import (ComputeRun, compositions, field_rec, generic_lemma, link, ranks_of, scale_of, size_vectors, sqrt_inst)
+from .computil import (ComputeRun, compositions, field_rec, generic_lemma, ranks_of, scale_of, size_vectors, sqrt_inst)
 from . import c01
 
 PROP = "C06"
@@ -40,30 +41,84 @@ def unit_compute(model, sizes, gamma_mode):
         if not run.ok():
             recs.append(driver.rec(f"C06/{model}/_compute/returns@{shape}", "refuted", "explorer", 0, fn=fn, shape=shape, note=repr(run.out[1]), replay=rp))
             continue
-        ok, note, t, spec, det, P = link(run, which=("sigma",))
-        recs.append(field_rec(f"C06/{model}/_compute/sigma-equals-published-update@{shape}", ok, "field", note, t, fn, shape, rp))
-        SP = signs.SignProver(run.hyps, run.facts)
+        P = run.prover(timeout_ms=5000)
         t0 = time.time()
+        post = run.post()
         bad = []
         for i in range(n):
             for j in range(sizes[i]):
-                sg = run.prior[i][j][1]
-                with active(run.ctx):
-                    X = (sg * sg / det["s"][i]) * det["delta"][i]
-                if not SP.prove(term(X), "ge"):
+                if not _direct_sigma(P, term(post[i][j][1]), term(run.prior[i][j][1])):
                     bad.append((i, j))
-        recs.append(driver.rec(f"C06/{model}/update/variance-step-nonneg@{shape}", "discharged" if not bad else "open", "split+z3", time.time() - t0,
-                               fn=fn, shape=shape, mode="R", note=f"failed for players {bad}" if bad else f"{SP.leaf_calls} leaf queries",
+        recs.append(driver.rec(f"C06/{model}/_compute/sigma-in-(0,prior]@{shape}", "discharged" if not bad else "open", "field-sign+z3", time.time() - t0,
+                               fn=fn, shape=shape, mode="R", note=f"failed for players {bad}" if bad else "",
                                replay=None if not bad else rp))
         if blocks == (1,) * n and gamma_mode == "default":
-            # canary: "the variance step is <= 0" must not be provable
-            sg = run.prior[0][0][1]
+            # canary: "sigma' <= sigma/2" must not be provable
             with active(run.ctx):
-                X = (sg * sg / det["s"][0]) * det["delta"][0]
-            wrong = SP.prove(term(X), "le")
-            recs.append(driver.rec(f"C06/{model}/update/canary-variance-step-nonpos@{shape}", "discharged" if wrong else "refuted", "split+z3", 0,
+                half = term(run.prior[0][0][1] * 0.5)
+            wrong = _direct_sigma(P, term(post[0][0][1]), half)
+            recs.append(driver.rec(f"C06/{model}/_compute/canary-sigma-halves@{shape}", "discharged" if wrong else "refuted", "field-sign+z3", 0,
                                    kind="canary", fn=fn, shape=shape, replay=dict(rp, clause="canary")))
     return recs
+
+
+def _direct_sigma(P, sg1, sg0):
+    """sigma' = sigma0 * sqrt(Y) with 0 < Y <= 1, read off the exact normal form"""
+    from ..poly import Poly, Unsupported
+    try:
+        N = P.N
+        p1 = N.norm(sg1)
+        p0 = N.norm(sg0)
+        s1 = p1.single()
+        s0 = p0.single()
+        if s1 is None or s0 is None or s1[1] != s0[1]:
+            return False
+        rest = dict(s1[0])
+        for (a, e) in s0[0]:
+            rest[a] = rest.get(a, 0) - e
+        rest = {a: e for a, e in rest.items() if e}
+        if len(rest) != 1:
+            return False
+        (a, e), = rest.items()
+        if e != 1 or N.atoms.info[a][0] != "sqrt":
+            return False
+        Y = N.sqrt_of[a]
+        one = Poly.const(1)
+        sy = Y.single()
+        if sy is not None and sy[1] == 1 and len(sy[0]) == 1 and sy[0][0][1] == 1 and N.atoms.info[sy[0][0][0]][0] == "ite":
+            ck = N.atoms.info[sy[0][0][0]][1][0]
+            cond, pa, pb = N.atoms.info[sy[0][0][0]][2]
+            # is the ite a max? its canonical condition is (pa - pb >= 0) up to a positive factor
+            kind = None
+            if isinstance(ck, tuple) and ck[0] == "ge0":
+                from math import gcd
+                from fractions import Fraction
+                for sign, tag in ((1, "max"), (-1, "min")):
+                    dl = N.reduce((pa - pb).scale(sign))
+                    if dl.is_zero():
+                        continue
+                    num, den = 0, 1
+                    for v in dl.t.values():
+                        num = gcd(num, abs(v.numerator))
+                        den = den * v.denominator // gcd(den, v.denominator)
+                    if dl.scale(Fraction(den, num)).key() == ck[1]:
+                        kind = tag
+            if kind == "max":
+                # 0 < max(pa, pb) <= 1  <=  (pa > 0 or pb > 0) and pa <= 1 and pb <= 1
+                pos = any(P.prove_ge_poly(q, strict=True)[0] == "discharged" for q in (pb, pa))
+                return pos and all(P.prove_ge_poly(N.reduce(one - q))[0] == "discharged" for q in (pa, pb))
+            branches = [(pa, cond), (pb, z3.Not(cond))]
+        else:
+            branches = [(Y, None)]
+        for (q, cond) in branches:
+            hy = [cond] if cond is not None else []
+            if P.prove_ge_poly(N.reduce(one - q), extra_hyps=hy)[0] != "discharged":
+                return False
+            if P.prove_ge_poly(q, strict=True, extra_hyps=hy)[0] != "discharged":
+                return False
+        return True
+    except Unsupported:
+        return False
 
 
 def unit_lemmas():
@@ -99,12 +154,68 @@ def unit_lemmas():
 
 
 def unit_rate(model, sizes, vec, limit, use_t):
-    recs = c01.unit_rate(model, sizes, vec, limit, use_t)
-    for r in recs:
-        r["name"] = r["name"].replace("C01/", "C06/").replace("/rate/mu@", "/rate/equals-spec-mu@").replace("/rate/sigma@", "/rate/equals-spec-sigma@")
-        if r["replay"]:
-            r["replay"]["kind"] = "c06_sigma"
-    return [r for r in recs if "/rate/equals-spec-mu@" not in r["name"]]
+    """the real rate() (tau inflation, sort, real _compute, unsort, clamp) on symbolic
+    rank values and per-call tau: on every path the returned sigma is, as an exact normal
+    form, inflated*sqrt(Y) with 0 < Y <= 1 (limit off), and additionally <= prior (limit on)"""
+    from .. import extract as ex, field as fld, game as gm
+    from ..symrt import Ctx, call, explore, KFLOAT, KINT
+    n = len(sizes)
+    S = ex.Scratch(model)
+    gm.stub_tm_real(S)
+    gm.stub_phi_real(S)
+    shape = f"sizes={sizes},{vec},limit_sigma={limit},tau={'per-call' if use_t else 'model'}"
+    fn = f"{model}.rate"
+    ctx = Ctx("R", feas_timeout_ms=300)
+    recs = []
+    npaths = [0]
+
+    def run(ctx):
+        m, params = gm.mk_model(ctx, S, limit_sigma=limit)
+        ctx.assume(term(params["kappa"]) <= 1)
+        teams = gm.mk_teams(ctx, S, sizes)
+        prior = [[(p.mu, p.sigma) for p in t] for t in teams]
+        kw = {}
+        if vec != "none":
+            kw[vec] = [ctx.number(f"r{i}", kinds=(KINT, KFLOAT)) for i in range(n)]
+        tau = params["tau"]
+        if use_t:
+            tau = ctx.real("t")
+            ctx.assume(tau.t >= 0)
+            kw["tau"] = tau
+        out = call(m.rate, teams, **kw)
+        npaths[0] += 1
+        rp = c01._std_replay(model, sizes, None, "default", scale_of(model), limit=limit)
+        rp["kind"] = "c06_sigma"
+        if out[0] != "return":
+            recs.append(driver.rec(f"C06/{model}/rate/returns@{shape}", "refuted", "explorer", 0, fn=fn, shape=shape, note=repr(out[1]), replay=rp))
+            return
+        P = fld.Prover(ctx.hyps(), list(ctx.facts.values()), timeout_ms=5000)
+        X = gm.SymX()
+        t0 = time.time()
+        bad = []
+        for i in range(n):
+            for j in range(sizes[i]):
+                F = out[1][i][j].sigma
+                sg0 = prior[i][j][1]
+                infl = X.sqrt(sg0 * sg0 + tau * tau)
+                if limit and F is sg0:
+                    continue            # clamped to the prior itself
+                if limit:
+                    # positive: its normal form is a product of positive atoms
+                    ok = P.prove_ge_poly(P.N.norm(term(F)), strict=True)[0] == "discharged"
+                else:
+                    ok = _direct_sigma(P, term(F), term(infl))
+                if ok and limit:
+                    # not clamped on this path: the path condition contains F <= prior
+                    from ..tactics import check_sat
+                    ok = check_sat([h for h in ctx.pc] + [z3.Not(term(F) <= term(sg0))], timeout_ms=3000, use_cvc5=False, nlsat=False)[0] == "unsat"
+                if not ok:
+                    bad.append((i, j))
+        nm = "limit" if limit else "tau-bound"
+        recs.append(driver.rec(f"C06/{model}/rate/{nm}@{shape},path{npaths[0]}", "discharged" if not bad else "open", "field-sign+z3", time.time() - t0,
+                               fn=fn, shape=shape, mode="R", note=f"failed for players {bad}" if bad else "", replay=None if not bad else rp))
+    explore(ctx, run)
+    return recs
 
 
 def units(tier):
@@ -138,8 +249,8 @@ def main(tier, seed):
             "'finite' is C08's business",
             "shape-bounded: all tie patterns, n = 2..4 quick / 2..8 thorough, team-size vectors in coverage.shapes; rate-level link for small shapes with every weak order",
         ],
-        explanation=("Per shape: (1) the real _compute is proved equal to the published update (exact normal forms); (2) in that update every player's variance step share*Delta is proved >= 0 by a structural sign proof over its sums (leaves by z3 with the relevant lemma instances); "
-                     "(3) shape-independent lemmas by z3 turn that into 0 < sigma' <= sigma_in, sigma_prior <= sqrt(sigma_prior^2+tau^2), the clamp bound and the inductive history step; (4) the real rate() is proved equal to tau-inflation + update + clamp for symbolic ranks and per-call tau. "
-                     "Together: result sigma > 0, <= sqrt(prior^2 + tau^2), and <= prior when limit_sigma is in force."),
+        explanation=("Per shape and tie pattern the sigma returned by the real _compute is reduced to its exact normal form sigma_in*sqrt(max(a,b)); b = kappa, 1 - a = the variance step, which is proved >= 0 term-wise after raising to common denominators (w, wt, gamma >= 0 from contracts), so 0 < Y <= 1; "
+                     "the same is proved for the sigma returned by the real rate() on every path of the sort for symbolic rank values and per-call tau, with sigma_in = sqrt(prior^2+tau^2), and with limit_sigma the result is the prior itself or satisfies the path condition sigma <= prior. "
+                     "Shape-independent lemmas by z3 give 0 < sigma*sqrt(Y) <= sigma, prior <= sqrt(prior^2+tau^2) and the inductive history step."),
         shapes=sorted({str(u[1][1]) for u in units(tier) if u[0] != "unit_lemmas"}),
     )
